@@ -548,7 +548,7 @@ def run(ctx: vlib.Ctx):
         from harness.props import c14_coq
         c14_coq.theorems(ctx)
         cases = []
-        oracle_histories(ctx, ctx.budget(90, 1300), keep_cases=cases)
+        oracle_histories(ctx, ctx.budget(70, 1300), keep_cases=cases)
         oracle_histories(ctx, ctx.budget(60, 500), keep_cases=cases, focus="spec")
         oracle_histories(ctx, ctx.budget(60, 500), keep_cases=cases, focus="kwargs")
         tie_ok = c14_coq.correspondence(ctx, cases)
@@ -558,7 +558,7 @@ def run(ctx: vlib.Ctx):
             oracle_histories(ctx, ctx.budget(100, 400), focus="kwargs")
         oracle_scenarios(ctx)
         oracle_discriminated(ctx, ctx.budget(90, 600))
-        oracle_threads(ctx, ctx.budget(20, 150), ctx.budget(6, 12))
+        oracle_threads(ctx, ctx.budget(16, 150), ctx.budget(6, 12))
     finally:
         sys.setrecursionlimit(old)
     ctx.trusted += [
